@@ -313,7 +313,7 @@ class Gaussian(Distribution):
                 dev = np.array([dev])
             return model.gradient(self.sqrtprec.T @ (self.sqrtprec @ dev), *args, **kwargs)
         else:
-            warnings.warn('Gradient not implemented for {}'.format(type(self.mean)))
+            raise NotImplementedError('Gradient not implemented for {}'.format(type(self.mean)))
 
     def _sample(self, N=1, rng=None):
         """ Generate samples of the Gaussian distribution using
